@@ -626,6 +626,8 @@ def emit_cases(seed, n, work, spelling=True, only_class=None, named_terms=False,
         env["EMIT_NAMED_TERMS"] = "1"
     if always_spelled:
         env["EMIT_ALWAYS_SPELLED"] = "1"
+    if os.environ.get("_EMIT_PID") == "C18":
+        env["EMIT_LONG_NAMES"] = "1"
     if os.environ.get("_EMIT_PID") == "C10":
         env["EMIT_NEWLINE_TERM"] = "1"
     if os.environ.get("_EMIT_PID") == "C07":
